@@ -53,3 +53,11 @@ Require Import GM.model.Regex GM.proofs.RegexProofs.
 Theorem C01_regex_matcher_decides : forall r s, re_match r s = true <-> exists i j, Boundary s i /\ Matches s r i j.
 Proof. exact re_match_spec. Qed.
 Print Assumptions C01_regex_matcher_decides.
+
+(* the block phase of the parser model (parseBlocks, openBlocks, closeBlocks, the ten block parsers,
+   the link reference definition transformer, and the conversion of the heap to a tree) never
+   panics and never runs out of fuel: for EVERY source *)
+Require Import GM.proofs.ParseBlocksTotal GM.proofs.ParseInv.
+Theorem C01_parse_blocks_total : forall src, bytes_ok src -> exists r, ParseBlocksTree src = Ok r.
+Proof. exact ParseBlocksTree_total. Qed.
+Print Assumptions C01_parse_blocks_total.
